@@ -288,7 +288,7 @@ pub fn classify(msg: &str) -> &'static str {
 // ------------------------------------------------------------------ server
 
 pub const EPS: &[&str] =
-    &["p3", "wild", "q6", "json", "form", "j2", "raw", "stream", "rawreq", "mp", "all", "scal", "page", "bigjson", "bigform", "tls"];
+    &["p3", "wild", "q6", "json", "form", "j2", "raw", "stream", "rawreq", "mp", "all", "scal", "page", "bigjson", "bigform", "tls", "formopt"];
 
 pub fn ep_index(ep: &str) -> usize {
     EPS.iter().position(|e| *e == ep).expect("known endpoint")
@@ -368,6 +368,13 @@ async fn ep_json(rq: Rq, b: TypedBody<B6>) -> Result<HttpResponseOk<Echo>, HttpE
 #[endpoint { method = POST, path = "/form", content_type = "application/x-www-form-urlencoded" }]
 async fn ep_form(rq: Rq, b: TypedBody<F3>) -> Result<HttpResponseOk<Echo>, HttpError> {
     enter(&rq, "form");
+    echo(&rq, canon_of(&b.into_inner()))
+}
+
+/// url-encoded body whose fields are all optional: an empty body is a value of the type
+#[endpoint { method = POST, path = "/formopt", content_type = "application/x-www-form-urlencoded" }]
+async fn ep_formopt(rq: Rq, b: TypedBody<O3>) -> Result<HttpResponseOk<Echo>, HttpError> {
+    enter(&rq, "formopt");
     echo(&rq, canon_of(&b.into_inner()))
 }
 
@@ -503,6 +510,7 @@ pub fn make_api() -> ApiDescription<Arc<SrvCtx>> {
     api.register(ep_q6).unwrap();
     api.register(ep_json).unwrap();
     api.register(ep_form).unwrap();
+    api.register(ep_formopt).unwrap();
     api.register(ep_j2).unwrap();
     api.register(ep_raw).unwrap();
     api.register(ep_stream).unwrap();
